@@ -109,7 +109,7 @@ package priority
 //@   [*] dsc != nil && dsc.actual != nil && dsc.tactic != nil && dsc.strategic != nil && dsc.inputs != nil
 //@   [*] dsc.actual != dsc.tactic && dsc.actual != dsc.strategic && dsc.tactic != dsc.strategic
 //@   [*] dsc.opts.Divider != nil && dsc.opts.HandlersQuantity == gH && gH >= 1
-//@   [*] strictlyDesc(dsc.priorities) && allIn(dsc.priorities, gPset)
+//@   [* C15 C17] priority-list-sorted-distinct-configured: strictlyDesc(dsc.priorities) && allIn(dsc.priorities, gPset)
 //@   [*] forall k :: in(gPset, k) ==> dom(dsc.inputs, k)
 //@   [*] dsc.priorities.arr != 0 && (dsc.uncrowded.arr == 0 || dsc.uncrowded.arr != dsc.priorities.arr) && (dsc.useful.arr == 0 || dsc.useful.arr != dsc.priorities.arr)
 //@   [*] allocated(dsc.priorities.arr) && allocated(dsc.actual) && allocated(dsc.tactic) && allocated(dsc.strategic)
